@@ -223,6 +223,8 @@ func (s *connectionWorker) serve(ctx context.Context, session *sessions.Session)
 	}
 	cancel()
 	s.manager.shutdownSession(ctx, session)
+	// the session is over, whatever the cause: release the network connection
+	session.Close()
 }
 
 func (s *manager) shutdownSession(ctx context.Context, session *sessions.Session) {
